@@ -14,6 +14,7 @@ from ..report import Ctx
 from ..tensor import Typer, kwarg_t, const_int
 from ..util import norm, fn_body_nodes, kwarg
 from .c01 import result_kwargs, table_data, strip, mask_chain, addends
+from ..pat import Snips
 from .common import arg_permutation_rule, names_in, calls_named
 
 EXPLANATION = (
@@ -192,13 +193,18 @@ def rule_policy_matrix(ctx: Ctx, typer: Typer):
     f = P.find_fn("TabularPolicy._policy_matrix_on")
     users = [P.method("TabularPolicy", "_evaluate_on_discounted"), P.method("TabularPolicy", "_evaluate_on_undiscounted")]
     for u in users:
-        defs = [n for n in fn_body_nodes(u) if isinstance(n, ast.Assign) and isinstance(n.targets[0], ast.Name) and n.targets[0].id == "policy_matrix"]
+        um = u.positional_params[1]
+        # the policy matrix of an evaluation = the policy-shaped operand of its chain einsum  einsum(_, mdp.transition_matrix, <pm>)
+        SU = Snips(u)
+        ch = SU.find(f"np.einsum(ANY, {um}.transition_matrix, pm)")
+        pmn = ch[0][1]["pm"] if ch else None
+        defs = [n for n in fn_body_nodes(u) if isinstance(n, ast.Assign) and isinstance(n.targets[0], ast.Name) and n.targets[0].id == pmn]
         if not defs:
             ctx.unknown("MAT-1", u, u.node, "policy matrix definition", "not found")
             continue
         v = defs[0].value
         src = ast.unparse(v)
-        if "[:, mdp.action_list]" in src.replace(" ", "").replace(",", ", ").replace("[:, ", "[:, ") or "[:,mdp.action_list]" in src.replace(" ", ""):
+        if f"[:,{um}.action_list]" in src.replace(" ", ""):
             ctx.violation("MAT-1", u, defs[0], "policy table selected with the MDP's action list",
                           "`self[...][:, mdp.action_list]` needs every MDP action to be a column of the policy table, but evaluate_on only "
                           "asserts the opposite inclusion (policy actions <= MDP actions): a policy over a subset of the actions raises")
@@ -207,68 +213,86 @@ def rule_policy_matrix(ctx: Ctx, typer: Typer):
         else:
             ctx.unknown("MAT-1", u, defs[0], "policy matrix", f"unrecognised construction `{src[:60]}`")
     if f is not None:
-        src = ast.unparse(f.node)
-        zeros = [c for c in ast.walk(f.node) if isinstance(c, ast.Call) and ast.unparse(c.func) == "np.zeros"]
-        ok = bool(zeros) and "len(mdp.state_list)" in ast.unparse(zeros[0]) and "len(mdp.action_list)" in ast.unparse(zeros[0])
-        ctx.check(ok, "MAT-1", f, zeros[0] if zeros else f.node, "matrix allocated over (mdp.state_list, mdp.action_list)", "", "policy matrix is not allocated over the MDP's lists")
-        cols = [n for n in ast.walk(f.node) if isinstance(n, ast.ListComp) and "index" in ast.unparse(n)]
-        ok = bool(cols) and ast.unparse(cols[0].elt) == "mdp.action_list.index(a)" and ast.unparse(cols[0].generators[0].iter) == "self.action_list"
-        ctx.check(ok, "MAT-1", f, cols[0] if cols else f.node, "columns = positions of the policy's actions in mdp.action_list", "", "column mapping is not policy action -> position in the MDP's action list")
-        st = [n for n in ast.walk(f.node) if isinstance(n, ast.Assign) and isinstance(n.targets[0], ast.Subscript)]
-        ok = bool(st) and "self[mdp.state_list,]" in ast.unparse(st[0].value).replace(" ", "").replace(",]", ",]")
-        ctx.check(ok, "MAT-1", f, st[0] if st else f.node, "rows selected with the MDP's state list", "", "rows are not selected with mdp.state_list")
+        fm = f.positional_params[1]
+        S = Snips(f)
+        al = S.find(f"pm = np.zeros((len({fm}.state_list), len({fm}.action_list)))")
+        ctx.check(bool(al), "MAT-1", f, al[0][0] if al else f.node, "matrix allocated over (mdp.state_list, mdp.action_list)", "", "policy matrix is not allocated over the MDP's lists")
+        env = al[0][1] if al else {}
+        cols = S.find(f"cols = [{fm}.action_list.index(a) for a in self.action_list]")
+        ctx.check(bool(cols), "MAT-1", f, cols[0][0] if cols else f.node, "columns = positions of the policy's actions in mdp.action_list", "", "column mapping is not policy action -> position in the MDP's action list")
+        if cols:
+            env = {**env, "cols": cols[0][1]["cols"]}
+        st = S.find(f"pm[:, cols] = np.array(self[{fm}.state_list,])", env)
+        ctx.check(bool(st), "MAT-1", f, st[0][0] if st else f.node, "rows selected with the MDP's state list, written to the mapped columns", "", "rows are not selected with mdp.state_list / not written to the mapped columns")
+        ctx.check(bool(env.get("pm")) and S.has("return pm", {"pm": env.get("pm")}), "MAT-1", f, f.node, "the laid-out matrix is returned", "", "a different matrix is returned")
 
 
 def rule_undiscounted(ctx: Ctx, typer: Typer):
     P = ctx.P
     f = P.method("TabularPolicy", "_evaluate_on_undiscounted")
-    src = {ast.unparse(n.targets[0]): n for n in fn_body_nodes(f) if isinstance(n, ast.Assign) and len(n.targets) == 1}
+    um = f.positional_params[1]
+    S = Snips(f)
     asserts = [n for n in fn_body_nodes(f) if isinstance(n, ast.Assert)]
-    ok = any("state_action_reward_matrix <= 0" in ast.unparse(a.test) for a in asserts)
+    ok = any(f"{um}.state_action_reward_matrix <= 0" in ast.unparse(a.test) for a in asserts)
     ctx.check(ok, "REC-1", f, asserts[0] if asserts else f.node, "non-positive rewards are asserted", "", "the reward-sign precondition is missing")
-    # recurrent rows are removed from the chain before the inverse
     cfg = cfg_of(f)
-    rec_store = [n for n in fn_body_nodes(f) if isinstance(n, ast.Assign) and isinstance(n.targets[0], ast.Subscript)
-                 and ast.unparse(n.targets[0]) == "markov_process[recurrent_states]"]
-    invn = [n for n in fn_body_nodes(f) if isinstance(n, ast.Assign) and "np.linalg.inv" in ast.unparse(n.value)]
-    if rec_store and invn:
-        a, b = cfg.node_for(rec_store[0]), cfg.node_for(invn[0])
-        ctx.check(cfg.dominates(a, b) and isinstance(rec_store[0].value, ast.Constant) and rec_store[0].value.value == 0, "REC-2", f, rec_store[0],
+    # roles, bound structurally
+    inv = S.find("sr = np.linalg.inv(np.eye(ANY) - chain)")
+    chainn = inv[0][1]["chain"] if inv else None
+    absn = S.find(f"absorbing = {um}.absorbing_state_vec.astype(bool)")
+    env = {"chain": chainn, "absorbing": absn[0][1]["absorbing"] if absn else None}
+    acc = S.find("accessible = floyd_warshall(chain > 0) < float('inf')", env)
+    if acc:
+        env["accessible"] = acc[0][1]["accessible"]
+    # recurrent rows are removed from the chain before the inverse
+    rec_store = S.find("chain[recurrent] = 0", env) if chainn else []
+    rec_store = [(n, e) for n, e in rec_store if e["recurrent"] != env.get("absorbing")]
+    if rec_store and inv:
+        a, b = cfg.node_for(rec_store[0][0]), cfg.node_for(inv[0][0])
+        ctx.check(cfg.dominates(a, b), "REC-2", f, rec_store[0][0],
                   "rows of recurrent states are zeroed before the inverse", "", "recurrent rows stay in the chain that is inverted (singular system)")
+        env["recurrent"] = rec_store[0][1]["recurrent"]
     else:
         ctx.violation("REC-2", f, f.node, "rows of recurrent states are zeroed before the inverse", "no such store dominates the inverse")
-    # -inf is assigned under the negative-recurrent-accessible mask, which is accessible[:, negative_recurrent].any(-1)
-    st = [n for n in fn_body_nodes(f) if isinstance(n, ast.Assign) and isinstance(n.targets[0], ast.Subscript)
-          and ast.unparse(n.targets[0].value) == "state_value" and "inf" in ast.unparse(n.value)]
+    # state values = SR . state rewards; -inf under the negative-recurrent-accessible mask
+    sv = S.find("sv = np.einsum(ANY, sr, rewards)", {"sr": inv[0][1]["sr"]} if inv else None)
+    svn = sv[0][1]["sv"] if sv else None
+    if sv:
+        env["rewards"] = sv[0][1]["rewards"]
+    st = [n for n in fn_body_nodes(f) if isinstance(n, ast.Assign) and isinstance(n.targets[0], ast.Subscript) and svn is not None
+          and ast.unparse(n.targets[0].value) == svn and "inf" in ast.unparse(n.value)]
     if st:
         mask = ast.unparse(st[0].targets[0].slice)
-        d = src.get(mask)
-        ok = d is not None and ast.unparse(d.value).replace(" ", "") == "accessible[:,negative_recurrent_states].any(-1)"
-        ctx.check(ok, "REC-3", f, st[0], "-inf exactly where a negative recurrent class is accessible", mask,
-                  f"-inf is assigned under `{mask}` = `{ast.unparse(d.value) if d is not None else '?'}`; it must mark states from which a "
-                  f"negative recurrent state is accessible (accessible[:, negative_recurrent_states].any(-1))")
+        md = S.find("mask = accessible[:, negrec].any(-1)", {**{k: v for k, v in env.items() if k == "accessible" and v}, "mask": mask})
+        ctx.check(bool(md), "REC-3", f, st[0], "-inf exactly where a negative recurrent class is accessible", "",
+                  "-inf is not assigned under the mask `accessible[:, <negative recurrent states>].any(-1)`: it must mark states from which a negative recurrent state is accessible")
         ok = ast.unparse(st[0].value) == "float('-inf')"
         ctx.check(ok, "REC-3", f, st[0], "the assigned value is -inf", "", f"assigned value is {ast.unparse(st[0].value)}")
-        nr = src.get("negative_recurrent_states")
-        ok = nr is not None and ast.unparse(nr.value).replace(" ", "") == "recurrent_states&(state_rewards<0)"
-        ctx.check(ok, "REC-3", f, nr if nr is not None else f.node, "negative recurrent = recurrent and paying negative reward", "", "negative recurrent states are not recurrent & (state_rewards < 0)")
-        rs = src.get("recurrent_states")
-        ok = rs is not None and ast.unparse(rs.value).replace(" ", "") == "~transient&~absorbing_state_vec"
-        ctx.check(ok, "REC-3", f, rs if rs is not None else f.node, "recurrent = not transient and not absorbing", "", "recurrent states are not (~transient & ~absorbing)")
+        e2 = {k: v for k, v in env.items() if k in ("recurrent", "rewards") and v}
+        if md:
+            e2["negrec"] = md[0][1]["negrec"]
+        nr = S.find("negrec = recurrent & (rewards < 0)", e2) if "negrec" in e2 and "recurrent" in e2 else []
+        ctx.check(bool(nr), "REC-3", f, nr[0][0] if nr else f.node, "negative recurrent = recurrent and paying negative reward", "", "negative recurrent states are not recurrent & (state_rewards < 0)")
+        rs = S.find("recurrent = ~transient & ~absorbing", {k: v for k, v in env.items() if k in ("recurrent", "absorbing") and v}) if env.get("recurrent") and env.get("absorbing") else []
+        ctx.check(bool(rs), "REC-3", f, rs[0][0] if rs else f.node, "recurrent = not transient and not absorbing", "", "recurrent states are not (~transient & ~absorbing)")
     else:
         ctx.violation("REC-3", f, f.node, "-inf for states that reach a negative recurrent class", "no -inf assignment to the state values")
     # occupancy inf for initially accessible recurrent states
-    oc = [n for n in fn_body_nodes(f) if isinstance(n, ast.Assign) and isinstance(n.targets[0], ast.Subscript)
-          and ast.unparse(n.targets[0].value) == "state_occupancy" and "inf" in ast.unparse(n.value)]
-    ctx.check(bool(oc), "REC-4", f, oc[0] if oc else f.node, "occupancy of initially accessible recurrent states is inf", "", "infinite occupancies are not reported")
+    oc = S.find(f"occ = np.einsum(ANY, sr, {um}.initial_state_vec)", {"sr": inv[0][1]["sr"]} if inv else None)
+    ocs = S.find("occ[iar] = float('inf')", {"occ": oc[0][1]["occ"]}) if oc else []
+    ok = bool(ocs) and env.get("recurrent") is not None and env.get("accessible") is not None and \
+        bool(S.find(f"iar = accessible[{um}.initial_state_vec > 0].any(0) & recurrent", {"iar": ocs[0][1]["iar"], "accessible": env["accessible"], "recurrent": env["recurrent"]}))
+    ctx.check(ok, "REC-4", f, ocs[0][0] if ocs else f.node, "occupancy of initially accessible recurrent states is inf", "", "infinite occupancies are not reported for recurrent states accessible from the initial distribution")
     # nan-safe products
-    nans = [n for n in fn_body_nodes(f) if isinstance(n, ast.Assign) and isinstance(n.targets[0], ast.Subscript) and "isnan" in ast.unparse(n.targets[0])]
-    ctx.check(len(nans) >= 2, "REC-4", f, nans[0] if nans else f.node, "inf*0 products are set to 0 (future value and initial value)", "", "inf*0 = nan is not neutralised")
+    nans = S.find("x[np.isnan(x)] = 0")
+    ctx.check(len(nans) >= 2, "REC-4", f, nans[0][0] if nans else f.node, "inf*0 products are set to 0 (future value and initial value)", "", "inf*0 = nan is not neutralised")
 
 
 def rule_to_tabular(ctx: Ctx):
     P = ctx.P
     f = P.method("mdp.policy.Policy", "to_tabular")
+    slp, alp = f.positional_params[1:3]
+    S = Snips(f)
     st = [n for n in fn_body_nodes(f) if isinstance(n, ast.Assign) and isinstance(n.targets[0], ast.Subscript) and isinstance(n.targets[0].slice, ast.Tuple)]
     if not st:
         ctx.violation("TAB-1", f, f.node, "policy_matrix[si, ai] = prob", "no element store")
@@ -276,7 +300,7 @@ def rule_to_tabular(ctx: Ctx):
     s = st[0]
     idx = [ast.unparse(e) for e in s.targets[0].slice.elts]
     loops = [n for n in fn_body_nodes(f) if isinstance(n, ast.For)]
-    outer = [l for l in loops if isinstance(l.target, ast.Tuple) and "enumerate(state_list)" in ast.unparse(l.iter)]
+    outer = [l for l in loops if isinstance(l.target, ast.Tuple) and f"enumerate({slp})" in ast.unparse(l.iter)]
     inner = [l for l in loops if isinstance(l.target, ast.Tuple) and "action_dist" in ast.unparse(l.iter)]
     ok = bool(outer) and bool(inner)
     if ok:
@@ -284,13 +308,15 @@ def rule_to_tabular(ctx: Ctx):
         av, pv = [e.id for e in inner[0].target.elts]
         ok = ast.unparse(inner[0].iter) == f"self.action_dist({sv}).items()"
         ctx.check(ok, "TAB-1", f, inner[0], "probabilities come from self.action_dist(<row state>)", "", f"inner loop iterates {ast.unparse(inner[0].iter)}")
+        ai = S.find(f"action_index = {{a: i for i, a in enumerate({alp})}}")
+        ctx.check(bool(ai) if ai else None, "TAB-1", f, ai[0][0] if ai else f.node, "action_index maps actions to their positions in action_list", "", "idiom not recognised")
         aidx = [n for n in ast.walk(inner[0]) if isinstance(n, ast.Assign) and ast.unparse(n.targets[0]) == idx[1]]
-        ok = bool(aidx) and ast.unparse(aidx[0].value) == f"action_index[{av}]"
+        ok = bool(aidx) and bool(ai) and ast.unparse(aidx[0].value) == f"{ai[0][1]['action_index']}[{av}]"
         ctx.check(ok, "TAB-1", f, aidx[0] if aidx else s, "column index is the position of that action", "", "column index is not the position of the action whose probability is stored")
         ctx.check(idx[0] == si and ast.unparse(s.value) == pv, "TAB-1", f, s, "policy_matrix[row of s, column of a] = prob(a|s)", "", f"store is {ast.unparse(s)}")
-        ai = [n for n in fn_body_nodes(f) if isinstance(n, ast.Assign) and ast.unparse(n.targets[0]) == "action_index"]
-        ok = bool(ai) and ast.unparse(ai[0].value).replace(" ", "") == "{a:aifora,aiinenumerate(action_list)}".replace("fora,ai", "forai,a")
-        ctx.check(ok if ok else None, "TAB-1", f, ai[0] if ai else f.node, "action_index maps actions to their positions in action_list", "", "idiom not recognised")
+        pmn = ast.unparse(s.targets[0].value)
+        ok = S.has(f"pm = np.zeros((len({slp}), len({alp})))", {"pm": pmn}) and S.has(f"return TabularPolicy.from_state_action_lists(state_list={slp}, action_list={alp}, data=pm)", {"pm": pmn})
+        ctx.check(ok, "TAB-1", f, s, "the matrix is allocated over and returned with the given lists", "", "the table is not laid out over (state_list, action_list)")
     else:
         ctx.unknown("TAB-1", f, f.node, "to_tabular loops", "not recognised")
 
